@@ -372,10 +372,48 @@ def si_previous_length_sweep(ctx):
                               tags=dict(clause="history_independence", computer="si"))
 
 
+def stft_gap_previous_length_sweep(ctx):
+    """STFT computers whose frame shift EXCEEDS the frame length (frames with gaps between them - the buffered length
+    goes negative, which the code supports): every length 0 .. 2S+4 of a previous utterance, streamed and finalized;
+    then `started` must be false and the next utterance bit-identical to a fresh instance's"""
+    from pydrobert.speech import compute, filters
+
+    bank = filters.TriangularOverlappingFilterBank("mel", num_filts=4, sampling_rate=8000)
+    for style, lms, sms in (("causal", 5.0, 12.0), ("centered", 5.0, 12.0), ("causal", 10.0, 30.0)):
+        def mk():
+            return compute.STFTFrameComputer(bank, frame_length_ms=lms, frame_shift_ms=sms, frame_style=style)
+        c0 = mk()
+        L, S = c0.frame_length, c0.frame_shift
+        x2 = np.random.RandomState(79).randn(3 * S + 11)
+        ref = mk().compute_full(x2)
+        for n1 in range(0, 2 * S + 5):
+            if ctx.out_of_time():
+                return
+            case = dict(computer="stft", bank="tri", style=style, L=L, S=S, hist=[("chunk+finalize", n1, "float64")], N=len(x2),
+                        sweep="previous_length_gap")
+            ctx.case(case, kind="stft_gap_prev_len:" + style)
+            a = mk()
+            try:
+                a.compute_chunk(np.random.RandomState(80).randn(n1))
+                a.finalize()
+                st = bool(a.started)
+                y = a.compute_full(x2)
+            except Exception as e:
+                ctx.violation(case, "no exception", "%s: %s" % (type(e).__name__, e), "history of calls raises",
+                              tags=dict(clause="raises", computer="stft", exc=type(e).__name__))
+                continue
+            if st:
+                ctx.violation(case, False, True, "started is false after finalize", tags=dict(clause="started_spec_library", computer="stft"))
+            if y.shape != ref.shape or y.tobytes() != ref.tobytes():
+                ctx.violation(case, "bit-identical", "differs", "history-laden instance vs fresh instance on the next utterance (bit-identical)",
+                              tags=dict(clause="history_independence", computer="stft"))
+
+
 def library_history_oracle(ctx):
     """library banks, STFT and SI: history-laden instance vs fresh instance, bit-identical"""
     si_history_correspondence(ctx)
     si_previous_length_sweep(ctx)
+    stft_gap_previous_length_sweep(ctx)
     from pydrobert.speech import compute, filters
 
     r = ctx.rng
